@@ -1084,6 +1084,8 @@ def run(ctx):
             seen_ops.add(name)
         if rec["info"]:
             ctx.hist("monitor-triangle:" + rec["info"].get("shape", "?"))
+            if rec["info"].get("narrow_dtype"):
+                ctx.hist("monitor-triangle:arrays of dtype " + rec["info"]["narrow_dtype"])
             if rec["info"].get("falsy_details"):
                 ctx.hist("monitor-triangle:details/loss_details with None or falsy values")
             if rec["info"].get("n_cells", 0) >= 2 or any(o.startswith("raised") for _, o in rec["trace"]):
